@@ -78,6 +78,50 @@ def run(tier, seed):
             if fmt == "android-safetynet":
                 continue        # its timestamp window is C17's subject
             B.run_case(regrun.policy_of(pd2), reg, "dict", exp, f"replayed-at-{now - regsim.T0:+d}s/{fmt}", scn=s)
+    # 2c. genuine recorded attestations against the REAL built-in anchors (nothing substituted but the clock)
+    import os
+    V = json.load(open(os.path.join(os.path.dirname(os.path.dirname(os.path.abspath(__file__))), "realvec.json")))
+    unrelated_pem = regsim.PKI("Z", root_cn="Unrelated Root").root_pem()
+    for fmt, v in V.items():
+        for what, dt, roots, exp in (("at its time", 0, {}, "accept"), ("400 days later", 400 * regsim.DAY, {}, "reject"), ("10 years earlier", -3650 * regsim.DAY, {}, "reject"),
+                                     ("with an unrelated RP root added", 0, {fmt: [unrelated_pem]}, "accept"), ("at its time (again)", 0, {}, "accept")):
+            pol = impl.RegPolicy(bytes.fromhex(v["challenge"]), v["rp_id"], v["origin"], roots=roots, now=v["now"] + dt)
+            il = impl.verify_reg(pol, v["credential"])
+            chk.evals += 1
+            ml = B.R.call("verifyreg " + pol.wire() + " D " + impl.json_to_wire(v["credential"])) if B.R else None
+            rp = {"entry": "verify_registration_response", "vector": f"recorded {fmt} attestation", "clock": v["now"] + dt, "rp_roots": list(roots), "impl": il[:200], "model": (ml or "")[:200]}
+            if il.startswith("OK") != (exp == "accept"):
+                chk.violation(f"recorded genuine {fmt} attestation {what}: {'rejected' if exp == 'accept' else 'accepted'}", f"real-vector {fmt} {what}", rp)
+            if ml is not None and not fw.exn_refines(ml, il):
+                chk.diverge("Model.verify_reg (recorded vector)", f"{fmt} {what}: model {ml[:80]} impl {il[:80]}", rp)
+            chk.seen(("real", fmt, what))
+    # 2d. the REAL clock and a freshly built store (no substitution at all), under several process time zones: "currently valid" means the epoch clock
+    import time
+    from webauthn.helpers.validate_certificate_chain import validate_certificate_chain as vcc
+    saved_tz = os.environ.get("TZ")
+    for tz in ("UTC", "XXX-12", "XXX+12"):
+        os.environ["TZ"] = tz
+        time.tzset()
+        now = int(time.time())
+        H = 3600
+        p = regsim.PKI("RT", n_inter=1, root_nb=now - 1000 * regsim.DAY, root_na=now + 1000 * regsim.DAY, inter_nb=now - 100 * regsim.DAY, inter_na=now + 100 * regsim.DAY)
+        for what, nb, na, exp in (("valid now", now - H, now + H, True), ("valid in 6 h", now + 6 * H, now + 7 * H, False), ("expired 6 h ago", now - 7 * H, now - 6 * H, False),
+                                  ("valid in 11 h", now + 11 * H, now + 12 * H, False), ("expired 11 h ago", now - 13 * H, now - 11 * H, False)):
+            leaf = p.leaf(regsim.name("real-clock leaf"), regsim.ec_key("helper_leaf").public_key(), nb=nb, na=na)
+            try:
+                vcc(x5c=p.chain_der(leaf), pem_root_certs_bytes=[p.root_pem()])
+                ok = True
+            except Exception:
+                ok = False
+            chk.evals += 1
+            if ok != exp:
+                chk.violation(f"real clock, TZ={tz}: chain whose leaf is {what} {'accepted' if ok else 'rejected'}", f"real-clock-tz {what} TZ={tz}", {"entry": "validate_certificate_chain", "TZ": tz, "leaf": what, "accepted": ok})
+            chk.seen(("real-clock", tz, what))
+    if saved_tz is None:
+        os.environ.pop("TZ", None)
+    else:
+        os.environ["TZ"] = saved_tz
+    time.tzset()
     # 3. validate_certificate_chain helper directly: implementation vs reference oracle
     from webauthn.helpers.validate_certificate_chain import validate_certificate_chain
     for i in range(20 if quick else 200):
